@@ -88,7 +88,8 @@ class C19(Prop):
         err_first = rng.random() < 0.06
         nodes[0]["opts"]["cluster"] = "error" if err_first else self.cluster(version, first)
         w = {"stack": "aws", "cfg_node": "%s:11211" % CFG_HOST, "nodes": nodes, "resolver": resolver,
-             "client_kwargs": ck, "knobs": {"recv_size": rng.choice([4096, 4096, 64, 7, 1])},
+             "client_kwargs": ck, "knobs": {"recv_size": rng.choice([4096, 4096, 64, 7, 1]),
+                                            "log_debug": rng.random() < 0.15},
              "init": {"net": gen.gen_net(rng, 0.7) or {}}}
         keys = [rng.choice([b"k%d" % j, "s%d" % j, b"user:%d" % j]) for j in range(rng.randint(4, 10))]
         steps = []
@@ -128,6 +129,9 @@ class C19(Prop):
                         steps.append({"t": "call", "m": "get", "a": [E(rng.choice(owned))], "k": {}, "tag": "preamble"})
                         steps.append({"t": "advance", "dt": 1.5})
                     new = [i for i in cur if i != victim]
+                    if len(new) > 1 and rng.random() < 0.6:
+                        # ... and other nodes leave the cluster in the same reconfiguration
+                        new = sorted(rng.sample(new, rng.randint(1, len(new) - 1)))
                     version += 1
                     steps.append({"t": "cluster", "node": 0, "cluster": self.cluster(version, new)})
                     steps.append({"t": "call", "m": "reconfigure_nodes", "a": [], "k": {}, "tag": "reconf", "adv": new})
